@@ -158,6 +158,28 @@ def auto_rules(rng):
     return '\n\n'.join(out) + '\n\n'
 
 
+def gen_lots(rng, vary_lots):
+    """3-8 lots of one commodity on one account, told apart by their notes; vary_lots: they differ in lot date and price as
+    well - what a report merges them into (--average-lot-prices: the earliest date, the averaged price) must come from
+    the lots, not from the order the hash table yields them in"""
+    lots = []
+    notes = rng.sample(['alpha', 'bravo', 'charlie', 'delta', 'echo', 'foxtrot', 'golf', 'hotel', 'ira', 'taxable'], rng.randrange(3, 9))
+    for k_, note in enumerate(notes):
+        x_ = X.gen_lot_notes(rng)
+        p_ = next(q for q in x_.posts if q.lot is not None)
+        p_.acct, p_.lot, p_.lot_date, p_.lot_note = 'Assets:Broker:X', X.Amt(F(10), 2, '$'), '2020/01/05', note
+        if vary_lots:
+            p_.lot_date = '2019/%02d/%02d' % (rng.randrange(1, 13), rng.randrange(1, 29))
+            p_.lot = X.Amt(F(rng.randrange(500, 2000), 100), 2, '$')
+            if rng.random() < 0.3:
+                p_.lot_note = None
+        c_ = next(q for q in x_.posts if q.lot is None)
+        c_.amt = X.Amt(-p_.lot.value * p_.amt.value, 2, '$')
+        x_.date = '2020/01/%02d' % (6 + k_)
+        lots.append(x_)
+    return lots
+
+
 def mutate(rng, text):
     b = bytearray(text.encode('utf-8'))
     for _ in range(rng.randrange(1, 6)):
@@ -222,16 +244,7 @@ def run(ctx, n_override=None):
         elif r < 0.86:
             # several lots of one commodity with the same price and lot date, told apart by their notes only: the order the
             # reports list them in must come from the lots, not from where they happen to sit in memory
-            lots = []
-            notes = rng.sample(['alpha', 'bravo', 'charlie', 'delta', 'echo', 'foxtrot', 'golf', 'hotel', 'ira', 'taxable'], rng.randrange(3, 9))
-            for k_, note in enumerate(notes):
-                x_ = X.gen_lot_notes(rng)
-                p_ = next(q for q in x_.posts if q.lot is not None)
-                p_.acct, p_.lot, p_.lot_date, p_.lot_note = 'Assets:Broker:X', X.Amt(F(10), 2, '$'), '2020/01/05', note
-                c_ = next(q for q in x_.posts if q.lot is None)
-                c_.amt = X.Amt(-F(10) * p_.amt.value, 2, '$')
-                x_.date = '2020/01/%02d' % (6 + k_)
-                lots.append(x_)
+            lots = gen_lots(rng, rng.random() < 0.5)
             text = X.render_journal(lots)
             tag = 'lots'
         elif r < 0.91:
@@ -261,7 +274,9 @@ def run(ctx, n_override=None):
         if tag == 'rate':
             cmd = list(rng.choice([['bal'], ['reg'], ['bal', '-B'], ['reg', '-B'], ['print'], ['prices'], ['bal', '--lots']]))
         if tag == 'lots':
-            cmd = list(rng.choice([['bal', '--lots'], ['reg', '--lots'], ['bal', '--lots', '--flat'], ['bal', '--lot-notes'], ['print'], ['xml'], ['bal', '--lots', '-B']]))
+            cmd = list(rng.choice([['bal', '--lots'], ['reg', '--lots'], ['bal', '--lots', '--flat'], ['bal', '--lot-notes'], ['print'], ['xml'], ['bal', '--lots', '-B'],
+                                   ['bal', '--average-lot-prices', '--lot-dates'], ['bal', '--average-lot-prices', '--lots'], ['reg', '--average-lot-prices', '--lot-dates'],
+                                   ['bal', '--average-lot-prices', '--lot-dates', '--flat'], ['bal', '--lot-dates'], ['bal', '--lot-prices']]))
         if tag == 'c20' and rng.random() < 0.5:
             cmd = list(rng.choice([['bal', '--time-report'], ['bal', '--time-report', '--flat'], ['reg'], ['bal', '--day-break']]))
         first = run_case(ctx, res, tag, text, cmd, nlay)
@@ -293,6 +308,16 @@ def run(ctx, n_override=None):
                                ['reg', '%Envelope', '--format', '%(account)|%(note)\n'], ['tags'], ['tags', '--values']]))
         first = run_case(ctx, res, 'auto-notes', text, cmd, nlay)
         res.count('kind:auto-notes')
+        if first and (first[1] or first[2]):
+            res.nontrivial.add(hashlib.sha256(text.encode('utf-8', 'surrogateescape') + ' '.join(cmd).encode()).hexdigest())
+    # directed: dated lots at different prices under the reports that merge them
+    for k_ in range(ctx.scale(10, 60)):
+        text = X.render_journal(gen_lots(rng, True) + (gen_lots(rng, True) if rng.random() < 0.5 else []))
+        cmd = list(rng.choice([['bal', '--average-lot-prices', '--lot-dates'], ['bal', '--average-lot-prices', '--lots'],
+                               ['reg', '--average-lot-prices', '--lot-dates'], ['bal', '--average-lot-prices', '--lot-dates', '--flat'],
+                               ['bal', '--average-lot-prices'], ['bal', '--lot-dates'], ['bal', '--lots', '-B']]))
+        first = run_case(ctx, res, 'lot-merge', text, cmd, nlay)
+        res.count('kind:lot-merge')
         if first and (first[1] or first[2]):
             res.nontrivial.add(hashlib.sha256(text.encode('utf-8', 'surrogateescape') + ' '.join(cmd).encode()).hexdigest())
     # value expressions through the REPL under the same layouts
